@@ -206,6 +206,8 @@ def run_shard(args):
     sub = [s for s in mod.SUBCHECKS if s.name == sub_name][0]
     rec = Rec()
     failure = None
+    if sub.custom is None and sub.enumerate is None and shard % 2 == 1:
+        _prime(mod, sub, tier, seed)
     try:
         if sub.custom is not None:
             failure = sub.custom(tier, seed, shard, nshards, rec)
@@ -220,6 +222,31 @@ def run_shard(args):
     out = rec.as_dict()
     out.update(sub=sub_name, shard=shard, wall=time.time() - t0, failure=failure, seed=seed)
     return out
+
+
+def _prime(mod, sub, tier, seed):
+    """Odd-numbered shards start with a few cases of the *sibling* sub-checks (made for their side effects only: a sub-check's own
+    shards judge them).  A value that verde computes once per process and keeps - a module-level cache keyed too coarsely, a
+    constant frozen by the first call - is then set by a different kind of call than the ones this shard judges."""
+    import hypothesis
+    from hypothesis import given
+
+    for k, other in enumerate(mod.SUBCHECKS):
+        if other is sub or other.strategy is None:
+            continue
+        strat = other.strategy(tier) if callable(other.strategy) else other.strategy
+
+        @hypothesis.seed(seed * 31 + k)
+        @_hyp_settings(2, tier)
+        @given(strat)
+        def prime(case, other=other):
+            evaluate(other, case)
+
+        try:
+            prime()
+        except BaseException as e:  # noqa: BLE001 - primers are not judged here
+            if isinstance(e, KeyboardInterrupt):
+                raise
 
 
 def _run_enumerated(sub, tier, shard, nshards, rec):
@@ -355,17 +382,44 @@ def replay_file(mod, path):
     return evaluate(sub[0], data["case"])
 
 
-def _driver_prefix(mod, check_id, per_sub=None):
-    """The plain evaluations the driver makes before the generated search (regression replays, canaries); part of every
-    worker's process history because the workers are forked afterwards."""
+def _run_prefix(check_id, sub_names):
+    """(forked child) regression replays, then canaries of the open known findings"""
+    mod = _load_check(check_id)
     by_name = {s.name: s for s in mod.SUBCHECKS}
+    out = dict(lines=[], violations=[], harness_errors=[], known_seen=[], n_regress=0, regress_hashes=[], per_sub={n: [0, []] for n in sub_names})
     for path in sorted(glob.glob(os.path.join(VERIF, "replays", "regress", check_id, "*.json"))):
         data = json.load(open(path))
-        if data["subcheck"] in by_name and (per_sub is None or data["subcheck"] in per_sub):
-            evaluate(by_name[data["subcheck"]], data["case"], Rec())
+        if data["subcheck"] not in out["per_sub"]:
+            continue
+        out["n_regress"] += 1
+        rec = Rec()
+        res = evaluate(by_name[data["subcheck"]], data["case"], rec)
+        out["per_sub"][data["subcheck"]][0] += 1
+        out["per_sub"][data["subcheck"]][1].extend(sorted(rec.hashes))
+        out["regress_hashes"].extend(sorted(rec.hashes))
+        if res is not None and res[0] == "violation":
+            rel = os.path.relpath(path, VERIF)
+            out["lines"].append("regression replay fails: %s" % res[1][:500])
+            out["lines"].append("VIOLATION property=%s replay=%s" % (check_id, rel))
+            out["violations"].append(rel)
+        elif res is not None and res[0] == "harness":
+            out["harness_errors"].append("regress %s: %s" % (path, res[1]))
     for k in load_known():
-        if k.get("status") == "open" and k.get("property") == check_id:
-            replay_file(mod, os.path.join(VERIF, k["canary"]))
+        if not (k.get("status") == "open" and k.get("property") == check_id):
+            continue
+        path = os.path.join(VERIF, k["canary"])
+        res = replay_file(mod, path)
+        if res is not None and res[0] == "known":
+            out["lines"].append("KNOWN-FINDING: property=%s %s" % (check_id, k["what"]))
+            out["known_seen"].append(k["id"])
+        elif res is not None and res[0] == "harness":
+            out["harness_errors"].append("canary %s: %s" % (path, res[1]))
+        elif res is not None and res[0] == "violation":
+            rel = os.path.relpath(path, VERIF)
+            out["lines"].append("canary of known finding %s fails outside its listed class: %s" % (k["id"], res[1][:300]))
+            out["lines"].append("VIOLATION property=%s replay=%s" % (check_id, rel))
+            out["violations"].append(rel)
+    return out
 
 
 def trace_shard(check_id, spec_json, out_path):
@@ -375,7 +429,6 @@ def trace_shard(check_id, spec_json, out_path):
     spec = json.loads(spec_json)
     mod = _load_check(check_id)
     TRACE = []
-    _driver_prefix(mod, check_id, spec.get("subs"))
     r = run_shard(tuple(spec["task"]))
     json.dump(dict(history=TRACE, failure=r["failure"]), open(out_path, "w"), default=str)
     return 0
@@ -471,45 +524,20 @@ def main(check_id, tier, replay=None, only=None):
                                                                      "fuzzed" if s.custom is not None else "generated"))
                for s in subs}
 
-    # 1. regression replays (plain calls, no Hypothesis)
-    n_regress = 0
-    regress_hashes = set()
-    for path in sorted(glob.glob(os.path.join(VERIF, "replays", "regress", check_id, "*.json"))):
-        data = json.load(open(path))
-        if data["subcheck"] not in per_sub:
-            continue
-        n_regress += 1
-        rec = Rec()
-        res = evaluate(by_name[data["subcheck"]], data["case"], rec)
-        ps = per_sub[data["subcheck"]]
-        ps["evaluations"] += 1
-        ps["hashes"] |= rec.hashes
-        regress_hashes |= rec.hashes
-        if res is not None and res[0] == "violation":
-            rel = os.path.relpath(path, VERIF)
-            print("regression replay fails: %s" % res[1][:500])
-            print("VIOLATION property=%s replay=%s" % (check_id, rel))
-            violations.append(rel)
-        elif res is not None and res[0] == "harness":
-            harness_errors.append("regress %s: %s" % (path, res[1]))
-
-    # 2. canaries of open known findings
+    # 1. + 2. regression replays and canaries of open known findings: plain calls (no Hypothesis) made in a forked child, so that the
+    # driver itself never calls verde and every shard starts from the same pristine process state
     known_open = [k for k in load_known() if k.get("status") == "open" and k.get("property") == check_id]
     known_ids = {k["id"] for k in known_open}
-    known_seen = []
-    for k in known_open:
-        path = os.path.join(VERIF, k["canary"])
-        res = replay_file(mod, path)
-        if res is not None and res[0] == "known":
-            print("KNOWN-FINDING: property=%s %s" % (check_id, k["what"]))
-            known_seen.append(k["id"])
-        elif res is not None and res[0] == "harness":
-            harness_errors.append("canary %s: %s" % (path, res[1]))
-        elif res is not None and res[0] == "violation":
-            rel = os.path.relpath(path, VERIF)
-            print("canary of known finding %s fails outside its listed class: %s" % (k["id"], res[1][:300]))
-            print("VIOLATION property=%s replay=%s" % (check_id, rel))
-            violations.append(rel)
+    with multiprocessing.get_context("fork").Pool(1) as pool:
+        pre = pool.apply(_run_prefix, (check_id, sorted(per_sub)))
+    for line in pre["lines"]:
+        print(line)
+    n_regress, regress_hashes, known_seen = pre["n_regress"], set(pre["regress_hashes"]), pre["known_seen"]
+    violations.extend(pre["violations"])
+    harness_errors.extend(pre["harness_errors"])
+    for name, (n_ev, hashes) in pre["per_sub"].items():
+        per_sub[name]["evaluations"] += n_ev
+        per_sub[name]["hashes"] |= set(hashes)
 
     # 3. generated / enumerated / stateful search
     tasks = []
